@@ -165,7 +165,7 @@ Proof.
   assert (d = N.of_nat (length (firstn (N.to_nat d) (concat pieces)))) as Hlen.
   { rewrite firstn_length. lia. }
   destruct (d <=? N.of_nat PROBE_MAX)%N.
-  - cbn [out_of]. rewrite PrinterRoundBase.vectored_independent, <- ?app_assoc.
+  - rewrite <- Hlen, N.eqb_refl. cbn [out_of]. rewrite PrinterRoundBase.vectored_independent, <- ?app_assoc.
     apply recv_cl_output; assumption.
   - rewrite <- Hlen, N.eqb_refl. cbn [out_of]. rewrite <- ?app_assoc.
     apply recv_cl_output; assumption.
@@ -440,17 +440,21 @@ Qed.
 
 (* the reason condition is exact: every printable reason phrase (no CR, LF) that violates it makes
    every response of the three entry points unreadable for the client *)
-Lemma with_body_starts start h date r accepted : exists more, out_of (with_body start h date r accepted) = start ++ more.
+Lemma with_body_starts start h date r accepted :
+  out_of (with_body start h date r accepted) = [] \/
+  exists more, out_of (with_body start h date r accepted) = start ++ more.
 Proof.
   unfold with_body. destruct (Headers.chunked h).
-  - cbn [out_of]. eexists. reflexivity.
+  - right. cbn [out_of]. eexists. reflexivity.
   - destruct (content_length h) as [cl|].
     + destruct (cl <=? N.of_nat PROBE_MAX)%N.
-      * destruct (take_all (reader_fuel r) (N.to_nat cl) r []) as [buf r2]. cbn [out_of].
+      * destruct (take_all (reader_fuel r) (N.to_nat cl) r []) as [buf r2].
+        (* a reader shorter than a small declared length: an error, nothing written *)
+        destruct (N.of_nat (length buf) =? cl)%N; cbn [out_of]; [right | left; reflexivity].
         rewrite PrinterRoundBase.vectored_independent, <- !app_assoc. eexists. reflexivity.
-      * destruct (take_all (reader_fuel r) (N.to_nat cl) r []) as [data r2].
+      * right. destruct (take_all (reader_fuel r) (N.to_nat cl) r []) as [data r2].
         destruct (N.of_nat (length data) =? cl)%N; cbn [out_of]; rewrite <- !app_assoc; eexists; reflexivity.
-    + destruct (probe_body (reader_fuel r) r []) as [[prefix complete] r'].
+    + right. destruct (probe_body (reader_fuel r) r []) as [[prefix complete] r'].
       destruct complete; cbn [out_of].
       * rewrite PrinterRoundBase.vectored_independent, <- !app_assoc. eexists. reflexivity.
       * eexists. reflexivity.
@@ -471,9 +475,10 @@ Proof.
       apply parse_bad_reason; assumption.
   - apply (unparsed_not_received _ EStatus). unfold write_response_empty. cbn [out_of].
     apply parse_bad_reason; assumption.
-  - intros pieces accepted. apply (unparsed_not_received _ EStatus). unfold write_response.
-    destruct (with_body_starts (status_line code reason) h date pieces accepted) as [more E]. rewrite E.
-    apply parse_bad_reason; assumption.
+  - intros pieces accepted. unfold write_response.
+    destruct (with_body_starts (status_line code reason) h date pieces accepted) as [E|[more E]]; rewrite E.
+    + vm_compute. reflexivity.
+    + apply (unparsed_not_received _ EStatus). apply parse_bad_reason; assumption.
 Qed.
 
 (* ------------------------------------------------------------------ the hypotheses are satisfiable *)
